@@ -197,7 +197,8 @@ def gen_watchers(rng, n, profile):
         if profile.get("hooks"):
             hooks = {}
             names = profile["hooks"]
-            for h in rng.sample(names, rng.choice([0, 1, 1, 2])):
+            for h in rng.sample(sorted(set(names)), rng.choice([0, 1, 1, 2])) + (
+                    ["before_signal"] if "before_signal" in names and rng.random() < profile.get("sighook", 0.0) else []):
                 hooks[h] = (rng.choice(["true", "false", "raise"]), rng.random() < 0.5)
             if hooks:
                 w["hooks"] = hooks
@@ -278,6 +279,8 @@ def gen_request(rng, w, p, names):
             props.pop("name")
     elif cmd in ("restart", "stop", "start"):
         props = {"name": name, "waiting": waiting}
+        if rng.random() < p.get("patterns", 0.0):
+            props["name"] = rng.choice(["w*", "w[12]", "*"])       # several watchers started / stopped together
         if rng.random() < 0.2:
             props.pop("name")
             props.pop("waiting")
@@ -291,6 +294,8 @@ def gen_request(rng, w, p, names):
             props["pidsel"] = rng.randint(0, 3)
     elif cmd == "signal":
         props = {"name": name, "signum": rng.choice([SIGHUP, SIGUSR1, "usr2", SIGTERM, SIGKILL, "int"])}
+        if rng.random() < p.get("sigkill", 0.0):
+            props["signum"] = rng.choice([SIGKILL, "kill", "SIGKILL", "9"])
         if rng.random() < 0.5:
             props["pidsel"] = rng.randint(0, 3)
         elif rng.random() < p.get("anypid", 0.0):
